@@ -113,3 +113,16 @@ Example C05_nonvacuous :
   = Some (127245, [3; 250; 255; 127; 46; 251; 255; 255], true, Some (VI 3)).
 Proof. vm_compute. reflexivity. Qed.
 Print Assumptions C05_nonvacuous.
+
+(* the bank status helpers of PGN 127501 (N2kSetStatusBinaryOnStatus / N2kGetStatusOnBinaryStatus / N2kResetBinaryStatus) *)
+From N2kV Require Import Model.BinStatusDefs Spec.BinStatusSpec Proofs.BinStatusProofs.
+Theorem C05_bank_status_set_get : bs_set_get_stmt.  Proof. exact bs_set_get. Qed.
+Print Assumptions C05_bank_status_set_get.
+Theorem C05_bank_status_index : bs_index_stmt.  Proof. exact bs_index. Qed.
+Print Assumptions C05_bank_status_index.
+Theorem C05_bank_status_reset : bs_reset_stmt.  Proof. exact bs_reset_ok. Qed.
+Print Assumptions C05_bank_status_reset.
+Example C05_bank_status_nonvacuous :
+  bs_set 0xFFFFFFFFFFFFFFFF 1 3 = 0xFFFFFFFFFFFFFFDF /\ bs_get 0xFFFFFFFFFFFFFFDF 3 = 1 /\ bs_get 0xFFFFFFFFFFFFFFDF 4 = 3 /\ bs_set 5 2 29 = 5.
+Proof. repeat split; vm_compute; reflexivity. Qed.
+Print Assumptions C05_bank_status_nonvacuous.
